@@ -506,8 +506,22 @@ func c04ValueFilters(rep *evid.Reporter, root *c04State) (filters, reads int) {
 		params string
 		acc    func(a string) bool
 		tx     func(t *ledger.Transaction) bool
+		// mayRefuse: the request may also be answered 4xx (a parameter without a defined reading); never by a listing
+		// that ignores it
+		mayRefuse bool
 	}
 	var v1 []v1f
+	// a balance without operator (reading: equality, or refused), an unknown operator, a balance that is no number - alone
+	// and next to another filter that must not be dropped with it
+	for _, n := range []int64{0, 5} {
+		n := n
+		eq := func(a string) bool { return fold.Balance(a, "X").Cmp(big.NewInt(n)) == 0 }
+		v1 = append(v1, v1f{params: fmt.Sprintf("balance=%d", n), acc: eq, mayRefuse: true})
+		v1 = append(v1, v1f{params: fmt.Sprintf("balance=%d&address=users%%3A", n), acc: func(a string) bool { return eq(a) && strings.HasPrefix(a, "users:") && strings.Count(a, ":") == 1 }, mayRefuse: true})
+	}
+	for _, bad := range []string{"balance=abc", "balance=5&balanceOperator=between", "balance=abc&address=users%3A", "balance=1.5"} {
+		v1 = append(v1, v1f{params: bad, acc: func(a string) bool { return false }, mayRefuse: true})
+	}
 	for _, op := range []string{"e", "ne", "lt", "lte", "gt", "gte"} {
 		for _, n := range []int64{0, 5, 10} {
 			op, n := op, n
@@ -688,6 +702,9 @@ func c04ValueFilters(rep *evid.Reporter, root *c04State) (filters, reads int) {
 			ErrorMessage string `json:"errorMessage"`
 		}
 		_ = json.Unmarshal(w.Body.Bytes(), &body)
+		if w.Code >= 400 && w.Code < 500 && f.mayRefuse {
+			continue
+		}
 		if w.Code != 200 {
 			if strings.Contains(body.ErrorMessage, "pgmini: unsupported") {
 				rep.Undecide("interpreter: " + body.ErrorMessage)
@@ -720,6 +737,9 @@ func c04ValueFilters(rep *evid.Reporter, root *c04State) (filters, reads int) {
 		}
 		if fmt.Sprint(got) != fmt.Sprint(want) {
 			viol("result", fmt.Sprintf("the listing answers %v, evaluating the filter on the replayed log selects %v", got, want))
+		}
+		if f.mayRefuse {
+			continue
 		}
 		// the count of the same request (HEAD): the number of items the filter selects
 		hreq := httptest.NewRequest("HEAD", "/api/ledger/l1/"+path+"?"+f.params, nil).WithContext(engineh.QuietCtx())
